@@ -2,15 +2,16 @@
 """store_seed.py <prop> <x> <worktree> — copy a confirmed seeded change into /verif/seeded/<prop>-<x>/"""
 import json, os, shutil, sys
 prop, x, wt = sys.argv[1:4]
+name = sys.argv[4] if len(sys.argv) > 4 else x
 src = os.path.join(wt, "out", x)
-dst = "/verif/seeded/%s-%s" % (prop, x)
+dst = "/verif/seeded/%s-%s" % (prop, name)
 os.makedirs(dst, exist_ok=True)
 for f in ("patch.diff", "demo.py", "notes.md"):
     shutil.copy(os.path.join(src, f), os.path.join(dst, f))
 notes = open(os.path.join(src, "notes.md")).read()
 tests = open(os.path.join(src, "confirm_tests.log")).read().strip().splitlines()[-1]
 demo = open(os.path.join(src, "confirm_demo.log")).read().strip().splitlines()[-3:]
-meta = {"property": prop, "id": "%s-%s" % (prop, x),
+meta = {"property": prop, "id": "%s-%s" % (prop, name),
         "author": "fresh sub-agent given only the property text and a scratch worktree of /repo",
         "needs_to_manifest": "see notes.md",
         "confirmed_by": "tools/confirm_seed.sh: demo exits 0 on the clean worktree; with patch.diff applied the extension builds, "
